@@ -96,7 +96,7 @@ PROPS['C09'] = dict(
         quick=[dict(unit='c09', cases=4000, workers=4)],
         thorough=[dict(unit='c09', cases=60000, workers='all')],
     ),
-    min=dict(quick=dict(cases=12000, nontrivial=5000, classes={'UpperHessenbergEigen/double': 300, 'TridiagEigen/float': 300, 'complex_pairs': 500, 'near_multiple_eigenvalue': 300, 'UpperHessenbergEigen/jordan_like': 100}),
+    min=dict(quick=dict(cases=12000, nontrivial=5000, classes={'UpperHessenbergEigen/double': 300, 'TridiagEigen/float': 300, 'complex_pairs': 500, 'near_multiple_eigenvalue': 300, 'UpperHessenbergEigen/jordan_like': 100, 'UpperHessenbergSchur/reducible_small_int_blocks': 200}),
              thorough=dict(cases=600000, nontrivial=300000)),
     rule='case = (class in {TridiagEigen, UpperHessenbergSchur, UpperHessenbergEigen}, scalar in {float,double,long double}, pattern (10 classes), n, entries / content seed, '
          'scale, constructor path). Non-trivial = n >= 3 and the matrix is not diagonal; distinct = 64-bit hash of the draw log.',
@@ -118,7 +118,7 @@ PROPS['C10'] = dict(
         quick=[dict(unit='c10', cases=5000, workers=4)],
         thorough=[dict(unit='c10', cases=80000, workers='all', set=dict(nmax=80))],
     ),
-    min=dict(quick=dict(cases=15000, nontrivial=8000, classes={'class/small_integer': 1000, 'class/zero_diagonal': 500, 'DenseSymShiftSolve wrapper': 1000, 'n=1': 50, 'reported_singular': 100, 'recompute_after_failure': 1000}),
+    min=dict(quick=dict(cases=15000, nontrivial=8000, classes={'class/small_integer': 1000, 'class/zero_diagonal': 500, 'DenseSymShiftSolve wrapper': 1000, 'n=1': 50, 'reported_singular': 100, 'recompute_after_failure': 1000, 'exact_zero_line': 1000, 'exact_zero_line_at_n-2': 100}),
              thorough=dict(cases=1000000, nontrivial=500000)),
     rule='case = (scalar type, matrix class, n, entries or content seed, scale, shift kind, argument form, first triangle, constructor path, optional failing factorization first, rhs seed) '
          'or a DenseSymShiftSolve wrapper case. Each case factorizes three times (given triangle, other triangle, given triangle with garbage in the unused one). '
